@@ -10,6 +10,7 @@ import (
 type mentry struct {
 	key, val value
 	deleted  bool
+	present  *Term // non-nil: the entry exists only under this condition
 }
 
 type smap struct {
@@ -41,8 +42,26 @@ func (m *smap) find(r *run, key value) *mentry {
 	return nil
 }
 
+// resolve decides a conditional entry (forking) and reports whether it exists.
+func (e *mentry) resolve(r *run, m *smap) bool {
+	if e.present == nil {
+		return true
+	}
+	p := e.present
+	e.present = nil
+	if r.branch(p) {
+		return true
+	}
+	e.deleted = true
+	m.n--
+	return false
+}
+
 func (m *smap) lookup(r *run, key value) (value, bool) {
 	if e := m.find(r, key); e != nil {
+		if !e.resolve(r, m) {
+			return nil, false
+		}
 		return e.val, true
 	}
 	return nil, false
@@ -50,6 +69,7 @@ func (m *smap) lookup(r *run, key value) (value, bool) {
 
 func (m *smap) insert(r *run, key, val value) {
 	if e := m.find(r, key); e != nil {
+		e.present = nil
 		e.val = copyVal(val)
 		return
 	}
@@ -59,8 +79,18 @@ func (m *smap) insert(r *run, key, val value) {
 
 func (m *smap) delete(r *run, key value) {
 	if e := m.find(r, key); e != nil {
-		e.deleted = true
-		m.n--
+		if e.resolve(r, m) {
+			e.deleted = true
+			m.n--
+		}
+	}
+}
+
+func (m *smap) resolveAll(r *run) {
+	for _, e := range m.entries {
+		if !e.deleted {
+			e.resolve(r, m)
+		}
 	}
 }
 
@@ -82,6 +112,7 @@ func newMapIter(r *run, m *smap) *mapIter {
 	if m == nil {
 		return it
 	}
+	m.resolveAll(r)
 	for _, e := range m.entries {
 		if !e.deleted {
 			it.snap = append(it.snap, e)
